@@ -317,6 +317,12 @@ func drawC14Veneers(rt *rapid.T, sc schemaCase, multi *c14Multi) []string {
 					options[pkg] = append(options[pkg], fmt.Sprintf("  - array_to_append: {by_name: %s.%s}\n  - disjunction_as_options: {by_name: %s.%s}\n", d.Name, f.Name, d.Name, f.Name))
 				}
 			case (rt2.Kind == smodel.KString || rt2.Kind == smodel.KInt || rt2.Kind == smodel.KBool || rt2.Kind == smodel.KFloat) && f.Type.Kind != smodel.KRef && !f.Type.Nullable:
+				// the discriminating field of an object with two builders is a
+				// constructor constant without option: promoting it too would
+				// contradict that
+				if multi != nil && d.Name == multi.Def && (f.Name == multi.Field || f.Name == "datasourceKind") {
+					continue
+				}
 				if len(promoted) < 3 && (f.Required || promoteOptional) && rapid.IntRange(0, 2).Draw(rt, "promote") == 0 {
 					promoted = append(promoted, f.Name)
 				}
@@ -496,6 +502,35 @@ func c14PatchMulti(rt *rapid.T, m *smodel.Model, t smodel.T, v any, mb *c14Multi
 
 // c14VeneerTag marks the cases whose veneers promote an optional field.
 func c14VeneerTag(sc schemaCase) string {
+	return c14PromotedTag(sc) + c14TwoBuildersTag(sc)
+}
+
+// c14TwoBuildersTag marks the cases where the object with two builders also has
+// an OPTIONAL constant field: the guards choosing between its builders demand
+// every constructor constant, so a value without that field matches no builder
+// (listed finding).
+func c14TwoBuildersTag(sc schemaCase) string {
+	text := strings.Join(sc.Veneers, "")
+	i := strings.Index(text, "  - duplicate: {by_name: ")
+	if i < 0 {
+		return ""
+	}
+	rest := text[i+len("  - duplicate: {by_name: "):]
+	name := rest[:strings.Index(rest, ",")]
+	d := sc.Model.Def(name)
+	if d == nil {
+		return ""
+	}
+	for _, f := range d.Type.Fields {
+		rt := sc.Model.Resolve(f.Type)
+		if !f.Required && (f.Type.Const != nil || rt.Const != nil || (rt.Kind == smodel.KEnum && len(rt.Members) < 2)) {
+			return ":two-builders-optional-constant"
+		}
+	}
+	return ""
+}
+
+func c14PromotedTag(sc schemaCase) string {
 	text := strings.Join(sc.Veneers, "")
 	if !strings.Contains(text, "promote_options_to_constructor") {
 		return ""
